@@ -35,6 +35,7 @@ const (
 	VTok   // domain-defined token; S = token
 	VNonNil
 	VAddr // address of a local variable (Ref); dereferences read/write that variable
+	VMeth // method value x.m (Sel, written in SelFn); calling it is calling x.m
 )
 
 type Value struct {
@@ -42,6 +43,9 @@ type Value struct {
 	S    string
 	Lit  *ast.FuncLit
 	Ref  types.Object
+	// method value
+	Sel   *ast.SelectorExpr
+	SelFn *Func
 }
 
 var unknown = Value{}
@@ -58,6 +62,8 @@ func (v Value) key() string {
 		return fmt.Sprintf("lit@%d", v.Lit.Pos())
 	case VAddr:
 		return fmt.Sprintf("addr@%d", v.Ref.Pos())
+	case VMeth:
+		return fmt.Sprintf("meth@%d", v.Sel.Pos())
 	}
 	return fmt.Sprintf("%d:%s", v.Kind, v.S)
 }
@@ -91,10 +97,10 @@ func valuesEqual(a, b Value) (bool, bool) {
 	if a.Kind == VUnknown || b.Kind == VUnknown {
 		return false, false
 	}
-	if a.Kind == VAddr {
+	if a.Kind == VAddr || a.Kind == VMeth {
 		a = Value{Kind: VNonNil}
 	}
-	if b.Kind == VAddr {
+	if b.Kind == VAddr || b.Kind == VMeth {
 		b = Value{Kind: VNonNil}
 	}
 	if a.Kind == VNonNil || b.Kind == VNonNil {
@@ -291,6 +297,12 @@ type Interp struct {
 	recvOverride ast.Expr // receiver expression for the next inline (callbacks such as container/heap)
 	// ExprVal lets a rule name the values of channel receives and field reads (tokens), so that it can follow them
 	ExprVal func(fr *Frame, e ast.Expr) (Value, bool)
+	// ExprValSt is the same with access to the interpreter state (for values that depend on what was stored), also
+	// consulted for binary expressions; FieldStore is told about assignments to struct fields
+	ExprValSt  func(ip *Interp, fr *Frame, st *State, e ast.Expr) (Value, bool)
+	FieldStore func(ip *Interp, fr *Frame, st *State, sel *ast.SelectorExpr, v Value) *State
+	// LitElem is told the value of every keyed element of a composite literal (in evaluation order)
+	LitElem func(ip *Interp, fr *Frame, st *State, lit *ast.CompositeLit, key string, v Value) *State
 }
 
 func NewInterp(p *Prog, d Domain) *Interp {
@@ -564,6 +576,10 @@ func (ip *Interp) exec(fr *Frame, s ast.Stmt, st *State) flow {
 			if id, ok := s.X.(*ast.Ident); ok {
 				ns = ip.bind(ns, fr.Fn.Info().ObjectOf(id), unknown, fr.Depth)
 			}
+			if sel, ok := ast.Unparen(s.X).(*ast.SelectorExpr); ok && ip.FieldStore != nil {
+				// x.f++ / x.f--: the rule is told the operation ("++" / "--") instead of a value
+				ns = ip.FieldStore(ip, fr, ns, sel, Value{Kind: VConst, S: s.Tok.String()})
+			}
 			fl.normal = append(fl.normal, ns)
 		}
 		return fl
@@ -819,6 +835,18 @@ func (ip *Interp) execAssign(fr *Frame, s *ast.AssignStmt, st *State) []*State {
 		for _, x := range sts {
 			ns := x
 			for i, l := range s.Lhs {
+				if sel, ok := ast.Unparen(l).(*ast.SelectorExpr); ok && ip.FieldStore != nil {
+					v := unknown
+					if i < len(r.vals) && s.Tok == token.ASSIGN {
+						v = r.vals[i]
+					}
+					if i < len(r.vals) && (s.Tok == token.ADD_ASSIGN || s.Tok == token.SUB_ASSIGN) && r.vals[i].Kind == VConst {
+						// x.f += 1: told as the operation
+						v = Value{Kind: VConst, S: s.Tok.String() + r.vals[i].S}
+					}
+					ns = ip.FieldStore(ip, fr, ns, sel, v)
+					continue
+				}
 				if star, ok := ast.Unparen(l).(*ast.StarExpr); ok {
 					if pid, ok := ast.Unparen(star.X).(*ast.Ident); ok {
 						if p := ip.lookup(ns, info.ObjectOf(pid)); p.Kind == VAddr {
@@ -1065,12 +1093,20 @@ func (ip *Interp) execSwitch(fr *Frame, s *ast.SwitchStmt, st *State, label stri
 		// pending: states that have not matched any earlier clause
 		pending := []*State{in.st}
 		var def *ast.CaseClause
-		for _, cc := range s.Body.List {
+		var carry []*State      // states falling through from the previous clause (source order)
+		var carryToDef []*State // ... into the default clause
+		for ci, cc := range s.Body.List {
 			clause := cc.(*ast.CaseClause)
 			if clause.List == nil {
 				def = clause
+				carryToDef = append(carryToDef, carry...)
+				carry = nil
+				if hasFallthrough(clause) {
+					ip.undecided(fr, clause, "fallthrough out of a default clause")
+				}
 				continue
 			}
+			_ = ci
 			var enter []*State
 			for _, ce := range clause.List {
 				var still []*State
@@ -1096,17 +1132,29 @@ func (ip *Interp) execSwitch(fr *Frame, s *ast.SwitchStmt, st *State, label stri
 				}
 				pending = dedup(still)
 			}
-			bf := ip.execBlock(fr, clause.Body, dedup(enter))
-			if hasFallthrough(clause) {
-				ip.undecided(fr, clause, "fallthrough")
+			enter = append(enter, carry...)
+			carry = nil
+			body := clause.Body
+			ft := hasFallthrough(clause)
+			if ft {
+				body = body[:len(body)-1]
 			}
+			bf := ip.execBlock(fr, body, dedup(enter))
 			fl.ret = append(fl.ret, bf.ret...)
-			normal = append(normal, bf.normal...)
+			if ft {
+				// control continues with the body of the next clause, whatever its expressions say
+				carry = bf.normal
+			} else {
+				normal = append(normal, bf.normal...)
+			}
 			normal = append(normal, takeLabel(bf.brk, label)...)
 			fl.merge(flow{brk: bf.brk, cont: bf.cont})
 		}
+		if len(carry) > 0 {
+			ip.undecided(fr, s, "fallthrough out of the last clause")
+		}
 		if def != nil {
-			bf := ip.execBlock(fr, def.Body, pending)
+			bf := ip.execBlock(fr, def.Body, dedup(append(pending, carryToDef...)))
 			fl.ret = append(fl.ret, bf.ret...)
 			normal = append(normal, bf.normal...)
 			normal = append(normal, takeLabel(bf.brk, label)...)
@@ -1332,6 +1380,14 @@ func (ip *Interp) pureValue(fr *Frame, st *State, e ast.Expr) Value {
 			}
 		}
 	}
+	if ip.ExprValSt != nil {
+		switch e.(type) {
+		case *ast.SelectorExpr, *ast.BinaryExpr, *ast.IndexExpr:
+			if tv, ok := ip.ExprValSt(ip, fr, st, e); ok {
+				return tv
+			}
+		}
+	}
 	return unknown
 }
 
@@ -1425,6 +1481,14 @@ func (ip *Interp) eval(fr *Frame, st *State, e ast.Expr) []Out {
 					v = tv
 				}
 			}
+			if ip.ExprValSt != nil {
+				if tv, ok := ip.ExprValSt(ip, fr, o.St, x); ok {
+					v = tv
+				}
+			}
+			if sel := info.Selections[x]; sel != nil && sel.Kind() == types.MethodVal && v.Kind == VUnknown {
+				v = Value{Kind: VMeth, Sel: x, SelFn: fr.Fn}
+			}
 			outs = append(outs, Out{St: ip.Dom.Visit(ip, fr, o.St, x), Vals: []Value{v}})
 		}
 		return outs
@@ -1508,6 +1572,11 @@ func (ip *Interp) eval(fr *Frame, st *State, e ast.Expr) []Out {
 				} else if fv, ok := foldInts(x.Op, l.val(), r.val()); ok {
 					v = fv
 				}
+				if ip.ExprValSt != nil && v.Kind == VUnknown {
+					if tv, ok := ip.ExprValSt(ip, fr, r.St, x); ok {
+						v = tv
+					}
+				}
 				outs = append(outs, Out{St: r.St, Vals: []Value{v}})
 			}
 		}
@@ -1522,6 +1591,11 @@ func (ip *Interp) eval(fr *Frame, st *State, e ast.Expr) []Out {
 				v := unknown
 				if lv := l.val(); lv.Kind == VTok {
 					v = Value{Kind: VTok, S: lv.S + "[]"}
+				}
+				if ip.ExprValSt != nil {
+					if tv, ok := ip.ExprValSt(ip, fr, r.St, x); ok {
+						v = tv
+					}
 				}
 				outs = append(outs, Out{St: ip.Dom.Visit(ip, fr, r.St, x), Vals: []Value{v}})
 			}
@@ -1562,13 +1636,21 @@ func (ip *Interp) eval(fr *Frame, st *State, e ast.Expr) []Out {
 	case *ast.CompositeLit:
 		sts := []*State{st}
 		for _, el := range x.Elts {
+			key := ""
 			if kv, ok := el.(*ast.KeyValueExpr); ok {
 				el = kv.Value
+				if id, ok := kv.Key.(*ast.Ident); ok {
+					key = id.Name
+				}
 			}
 			var next []*State
 			for _, s := range sts {
 				for _, o := range ip.eval(fr, s, el) {
-					next = append(next, o.St)
+					ns := o.St
+					if key != "" && ip.LitElem != nil {
+						ns = ip.LitElem(ip, fr, ns, x, key, o.val())
+					}
+					next = append(next, ns)
 				}
 			}
 			sts = next
@@ -1705,6 +1787,21 @@ func (ip *Interp) dispatch(fr *Frame, st *State, call *ast.CallExpr, c *Callee, 
 	if c.Builtin == "panic" {
 		ip.Dom.Call(ip, fr, st, call, c, args)
 		return nil
+	}
+	// a call through a variable that holds a method value x.m (of the same package: one types.Info) is a call of x.m
+	if c.Var != nil && c.Field == "" {
+		if v := ip.lookup(st, c.Var); v.Kind == VMeth && v.SelFn.Pkg == fr.Fn.Pkg {
+			call2 := &ast.CallExpr{Fun: v.Sel, Lparen: call.Lparen, Args: call.Args, Rparen: call.Rparen}
+			outs := ip.dispatch(fr, st, call2, resolveCallee(fr.Fn.Info(), call2), args)
+			for i := range outs {
+				if len(outs[i].Vals) != nres {
+					vals := make([]Value, nres)
+					copy(vals, outs[i].Vals)
+					outs[i].Vals = vals
+				}
+			}
+			return outs
+		}
 	}
 	if outs, handled := ip.Dom.Call(ip, fr, st, call, c, args); handled {
 		for i := range outs {
